@@ -107,10 +107,12 @@ pub fn derive(input: &Input) -> TokenStream {
             /// Similar to [`
             #[doc = #vec_name_str]
             /// ::capacity()`](https://doc.rust-lang.org/std/vec/struct.Vec.html#method.capacity),
-            /// the capacity of all fields should be the same.
+            /// the smallest capacity of all fields: fields of different sizes
+            /// grow differently, and this many elements can be stored without
+            /// any field reallocating.
             pub fn capacity(&self) -> usize {
-                let capacity = self.#first_field.capacity();
-                #(debug_assert_eq!(self.#fields_names.capacity(), capacity);)*
+                let mut capacity = self.#first_field.capacity();
+                #(capacity = ::std::cmp::min(capacity, self.#fields_names.capacity());)*
                 capacity
             }
 
